@@ -295,6 +295,9 @@ def stream_struct(tier, seed):
             for k in range(2 if not big else 1):
                 sfx = btc.rand_bytes(rng, rng.choice([1, 2, 5])) if k == 0 else b"\x00" * rng.choice([1, 4, 9])
                 lines.append(P("%s.x%d" % (gid, k), entry, b + sfx, param))
+            if len(b) < 1500 and g % 3 == 0:
+                # a long extension: a decision that peeks at how many bytes follow shows up here
+                lines.append(P("%s.x2" % gid, entry, b + b"\x5a" * 600, param))
         if prefixes:
             pts = cut_points(rng, b, fields, tier) if not big else [len(b) - 1, len(b) - 4, max(0, len(b) - 70000), 3]
             for j in pts:
